@@ -242,7 +242,7 @@ func init() {
 	core.Register(&core.Check{
 		Prop: "C10", Level: "exploration",
 		Rule: "universe cases: 243 layouts each of the 3^9 ways to place 9 entries (keys a, a@, b x versions 1..3, one tombstone) absent/in table 1/in table 2, block size 1 (one entry per block) or 4096, all 5 keys x 6 timestamps queried on fresh handles and on handles rebuilt from the files (thorough = the whole space, quick = a seeded 1/8 slice); random cases: 2-12 flushes over hostile/windowed/long/binary keys, moved down the levels by compactions, all keys + 25 absent keys x all interesting timestamps; oracle = brute-force newest version <= ts; non-trivial = a key with versions in >=2 tables and a multi-block table (random) / both tables populated (universe); distinct by layout hash",
-		Gen: genC10, Run: runC10, BatchSize: 6, GoMaxProcs: 1, Parallel: 8,
+		Gen:  genC10, Run: runC10, BatchSize: 6, GoMaxProcs: 1, Parallel: 8,
 		MinNonTrivial: map[string]int{"quick": 40, "thorough": 1500},
 		Exhaustive:    func(tier string) bool { return false },
 		Assumptions:   []string{"tables are built only from sorted lists of unique versioned keys, and equal versions have equal content, as the engine guarantees", "levels are populated through the engine's own flush and compaction code (verif accessors)"},
